@@ -230,13 +230,17 @@ def run_one(cid, case):
     import threading
 
     use_alarm = threading.current_thread() is threading.main_thread() and _case_limit() > 0
+    # a case may carry a tighter limit of its own ("timeout_s"): used where the broken behaviour is an endless loop
+    limit = _case_limit()
+    if isinstance(case, dict) and case.get("timeout_s"):
+        limit = min(limit, float(case["timeout_s"])) if limit > 0 else float(case["timeout_s"])
 
     def _on_alarm(signum, frame):
-        raise CaseTimeout(f"case exceeded {_case_limit():.0f} s")
+        raise CaseTimeout(f"case exceeded {limit:.0f} s")
 
     if use_alarm:
         old_handler = signal.signal(signal.SIGALRM, _on_alarm)
-        signal.setitimer(signal.ITIMER_REAL, _case_limit())
+        signal.setitimer(signal.ITIMER_REAL, limit)
     try:
         try:
             res = chk.run_case(case)
@@ -251,7 +255,7 @@ def run_one(cid, case):
         r = CaseResult()
         r.key = case_key(case)
         if isinstance(exc, CaseTimeout) and _any_library_frame(tb):
-            r.violate("no-answer-within-time-limit", where=_lib_frame(traceback.extract_tb(tb)), detail={"limit_s": _case_limit(), "traceback": text})
+            r.violate("no-answer-within-time-limit", where=_lib_frame(traceback.extract_tb(tb)), detail={"limit_s": limit, "traceback": text})
             packed = r.pack()
         elif isinstance(exc, LibraryOutputError):
             r.violate("library-output-malformed", what=str(exc.args[0]) if exc.args else "", detail={"traceback": text})
